@@ -33,6 +33,7 @@ type Engine struct {
 	files        map[string]*ast.File
 	repo         string
 	contractFile string
+	uninterpSpec map[string]bool
 }
 
 type globalInfo struct {
@@ -45,7 +46,7 @@ type globalInfo struct {
 
 func loadEngine(repo string, tags string, contractPath string) (*Engine, error) {
 	e := &Engine{repo: repo, funcs: map[string]*ssa.Function{}, specFuncs: map[string]*ast.FuncDecl{}, globals: map[*ssa.Global]*globalInfo{},
-		files: map[string]*ast.File{}, externAssume: map[string][]ExternAssume{}}
+		files: map[string]*ast.File{}, externAssume: map[string][]ExternAssume{}, uninterpSpec: map[string]bool{}}
 	cfg := &packages.Config{Mode: packages.LoadAllSyntax, Dir: repo, BuildFlags: []string{"-tags=" + tags}}
 	cfg.Env = append(os.Environ(), "GOFLAGS=-mod=mod", "GOPROXY=off", "GOSUMDB=off", "GOTOOLCHAIN=local")
 	if contractPath != "" {
